@@ -20,6 +20,7 @@ def run(tier, seed):
     nsh = 15 if tier == "thorough" else 8
     cases, sums, notes = core.run_sharded(exe, "c04", seed, tier, min(nsh, core.NCPU), timeout=3000, stall=1500 if tier == "thorough" else 120)
     r.add_cases(cases, "native")
+    core.also_librel(r, tier, False, lambda exe2: core.run_sharded(exe2, "c04", seed, tier, min(nsh, core.NCPU), timeout=3000, stall=1500 if tier == "thorough" else 120))
     r.notes += notes
     acq = sum(c.get("detail", {}).get("acquisitions", 0) for c in cases)
     cont = sum(c.get("detail", {}).get("contended_handovers", 0) for c in cases)
@@ -99,7 +100,7 @@ def miri_lockproto(r, seed):
 def replay(path):
     import subprocess
     rp = core.load_replay(path)
-    exe = core.build_native()
+    exe = core.build_native(libopt="librel" in str(rp.get("engine", "")))
     bad = 0
     for k in range(3):
         p = subprocess.run([exe, "c04", "--seed", str(rp["seed"] + k), "--tier", rp["tier"], "--only", str(rp["case_index"])], stdout=subprocess.PIPE, text=True)
